@@ -6,6 +6,26 @@ HOOK_COMMITS = subprocess.run(["git", "-C", "/repo", "log", "--format=%H %s"], c
 hooks = [l.split()[0] for l in HOOK_COMMITS if "verif hooks:" in l]
 
 CHECKS = {
+ "C01": dict(cat="model_checking", ref="§4 C01, §3.1",
+   text='MC_C01 instantiates Verify.tla over owner signer sets x caller key maps (empty, exact, superset, disjoint, aliased) x one post-signing edit per layout field x signature-list shapes; TLC proves OkOnlyIfNec (success only if every caller key has a valid signature over the shipped content). Every scenario is replayed with real keys of several types through in_toto_verify; hook traces are validated against Trace_Verify.tla.',
+   note='Trusted: TLC; ring for the primitives; the harness concretisation (builders, real keys, real files); abstraction: perfect signatures, injective key ids. Small scope stated in the evidence; clock pinned through the guarded hook.',
+   tech='TLA+ spec Verify.tla (pipeline state machine + requirement layer) model-checked with TLC; spec->impl replay of every TLC scenario through in_toto_verify; impl->spec trace validation of hook events (Trace_Verify.tla)'),
+ "C02": dict(cat="model_checking", ref="§4 C02, §3.1",
+   text='MC_C02 instantiates Verify.tla over layout key table x step key list x threshold x per-key link file state (absent, valid, other key under this id, corrupted, tampered, misfiled, multiply signed, sub-layout, unparsable); TLC proves OkOnlyIfNec; every scenario is replayed through in_toto_verify on a real link directory; each link_counted hook event must name a key authorised for that step with valid evidence (Trace_Verify.tla).',
+   note='Trusted: TLC; ring for the primitives; the harness concretisation (builders, real keys, real files); abstraction: perfect signatures, injective key ids. Small scope stated in the evidence; clock pinned through the guarded hook.',
+   tech='TLA+ spec Verify.tla (pipeline state machine + requirement layer) model-checked with TLC; spec->impl replay of every TLC scenario through in_toto_verify; impl->spec trace validation of hook events (Trace_Verify.tla)'),
+ "C06": dict(cat="model_checking", ref="§4 C06, §3.1",
+   text='MC_C06 instantiates Verify.tla over expiry offsets around the verification instant x RFC 3339 notations x {top-level, sub-layout}; replayed with the clock pinned through the hook (exact boundary) and with the real clock without any hook for offsets >= 60 s.',
+   note='Trusted: TLC; ring for the primitives; the harness concretisation (builders, real keys, real files); abstraction: perfect signatures, injective key ids. Small scope stated in the evidence; clock pinned through the guarded hook.',
+   tech='TLA+ spec Verify.tla (pipeline state machine + requirement layer) model-checked with TLC; spec->impl replay of every TLC scenario through in_toto_verify; impl->spec trace validation of hook events (Trace_Verify.tla)'),
+ "C07": dict(cat="model_checking", ref="§4 C07, §3.1",
+   text='MC_C07 instantiates Verify.tla over thresholds 2..3, 2..3 valid authorised links, each kind of dissent in materials or products, plus links that must be ignored; TLC explores every choice of reference link; replay compares the verdict.',
+   note='Trusted: TLC; ring for the primitives; the harness concretisation (builders, real keys, real files); abstraction: perfect signatures, injective key ids. Small scope stated in the evidence; clock pinned through the guarded hook.',
+   tech='TLA+ spec Verify.tla (pipeline state machine + requirement layer) model-checked with TLC; spec->impl replay of every TLC scenario through in_toto_verify; impl->spec trace validation of hook events (Trace_Verify.tla)'),
+ "C08": dict(cat="model_checking", ref="§4 C08, §3.1",
+   text="MC_C08 instantiates Verify.tla over one failing cause per stage x inspection command behaviours x inspection rules x a second inspection x a sub-layout inspection; TLC proves C08Order / C08Written (no inspection of a layout runs or writes its link before that layout's checks passed) and OkOnlyIfNec (non-zero exit, signal, not-found and inspection-rule failures are fatal). Replay runs the real commands and compares sentinel files and link files with the specification's MustNotRun set; inspect_start hook events are validated against it too.",
+   note='Trusted: TLC; ring for the primitives; the harness concretisation (builders, real keys, real files); abstraction: perfect signatures, injective key ids. Small scope stated in the evidence; clock pinned through the guarded hook.',
+   tech='TLA+ spec Verify.tla (pipeline state machine + requirement layer) model-checked with TLC; spec->impl replay of every TLC scenario through in_toto_verify; impl->spec trace validation of hook events (Trace_Verify.tla)'),
  "C03": dict(cat="model_checking", ref="§4 C03, §3.3",
    text="Rules.tla transcribes the in-toto specification's artifact-rule algorithm (functional form and a state machine with one Apply step per rule; TLC checks that both agree, that the queue only shrinks and that a rule only consumes artifacts its pattern / source prefix matches). TLC enumerates rule lists x item link states x referenced-step states; every scenario is run through the real rule engine and the verdict must equal the specification's; seeded random scenarios beyond the bounds (up to 4+4 rules, 6 paths, nested prefixes) are validated step by step (consumed set and remaining queue after every rule, hook in rulelib.rs) against Trace_Rules.tla.",
    note="Trusted: TLC, glob::Pattern (default options) as fnmatch, the harness builders. Inputs restricted to C03's own quantifier: normalised relative paths, portable glob syntax; '[' only in DISALLOW. Bounds: 3 paths, 57-rule alphabet, rule lists <= 2 in TLC (<= 4+4 in traces).",
